@@ -29,6 +29,17 @@ def run_lines(lines):
     return runs
 
 
+def big_text(kb, step, ch):
+    """a long one-line comment in which the multi-byte character [ch] straddles every multiple of [step] bytes
+    (a reader that decodes the file block by block must not split it)"""
+    b = bytearray(b"// ")
+    e = ch.encode("utf-8")
+    while len(b) < kb * 1024:
+        nxt = (len(b) // step + 1) * step
+        b += b"a" * (nxt - 1 - len(b)) + e
+    return b.decode("utf-8") + "\nmodule big; wire w; endmodule\n"
+
+
 def check(ctx):
     try:
         facts = svx_wiring.main()
@@ -49,6 +60,10 @@ def check(ctx):
         g = ppgen.Gen(r, includes=True, max_depth=2)
         files = ppgen.render(g.program())
         srcs.append(("pp", files))
+    for kb, step, ch in [(20, 1024, "é"), (70, 4096, "中"), (140, 8192, "é"), (40, 4096, "😀")] if not q else [(70, 4096, "中"), (20, 1024, "é")]:
+        bt = big_text(kb, step, ch)
+        srcs.append(("sv", bt))
+        srcs.append(("pp", {"top.sv": "`include \"big.svh\"\n", "big.svh": bt}))
     cases, meta = [], {}
     n = 0
     for k, t in srcs:
